@@ -148,7 +148,7 @@ func (w *World) DoHTTPh(t *Task, method, path string, body []byte, inj *Injectio
 func (w *World) DoLib(t *Task, handle interface{}, inj *Injection) *OpResult {
 	rec := w.begin(t, inj)
 	res := &OpResult{Kind: "lib", Rec: rec, LibHandle: handle}
-	res.LibBefore = Deep(w.env.LibValue(handle))
+	res.LibBefore = DeepCap(w.env.LibValue(handle))
 	var result, pv interface{}
 	var stack string
 	if w.guarded(t, func() { result, pv, stack = w.env.LibCall(handle) }) {
@@ -157,7 +157,7 @@ func (w *World) DoLib(t *Task, handle interface{}, inj *Injection) *OpResult {
 		res.Ticks = t.ticks
 		return res
 	}
-	res.LibAfter = Deep(w.env.LibValue(handle))
+	res.LibAfter = DeepCap(w.env.LibValue(handle))
 	if pv != nil {
 		res.Status = 400
 		if e, ok := pv.(error); ok {
